@@ -6,6 +6,7 @@ import (
 	"math"
 	"os"
 	"reflect"
+	"time"
 
 	"github.com/dappledger/AnnChain/gemmill/consensus/pbft"
 	crypto "github.com/dappledger/AnnChain/gemmill/go-crypto"
@@ -531,7 +532,9 @@ func (nt *Net) runInjections(n *Node) {
 		before := nt.Mon.Digest(n)
 		invalid := nt.definitelyInvalid(n, c)
 		panicked := false
-		func() {
+		recvDone := make(chan struct{})
+		go func() {
+			defer close(recvDone)
 			defer func() {
 				if recover() != nil {
 					panicked = true // contained by MConnection._recover in a real node: "disconnects that peer"
@@ -539,6 +542,30 @@ func (nt *Net) runInjections(n *Node) {
 			}()
 			n.conR.Receive(c.ch, n.peers[c.from], c.bz)
 		}()
+		wedged := ""
+		select {
+		case <-recvDone:
+			// Receive returned; the consensus mutex must be free again (a handler that returns
+			// with it held wedges the node for good without any panic)
+			probe := make(chan struct{})
+			go func() { n.cs.GetRoundState(); close(probe) }()
+			select {
+			case <-probe:
+			case <-time.After(wedgeTimeout):
+				wedged = "after Reactor.Receive returned, the consensus state's mutex is still held"
+			}
+		case <-time.After(wedgeTimeout):
+			wedged = "Reactor.Receive does not return"
+		}
+		if wedged != "" {
+			nt.Mon.report("C08", map[string]string{"kind": "node-wedged", "type": c.typ, "field": c.field},
+				fmt.Sprintf("node %d in state %q: %s: %s (no progress possible any more, no panic, peer not disconnected)", n.Idx, sp.State, c.desc, wedged))
+			st.Ran++
+			st.NextSkip = idx + 1 // the remaining cases need a fresh execution
+			nt.wedged = true
+			n.alive = false
+			return
+		}
 		st.Ran++
 		st.ByType[c.typ]++
 		if panicked {
@@ -585,3 +612,8 @@ func (nt *Net) runInjections(n *Node) {
 		return
 	}
 }
+
+// wedgeTimeout: how long a single lock acquisition / handler call may take before the
+// node counts as wedged.  A mutex left locked is never released, so the value only has
+// to be far above any scheduling delay of a loaded machine.
+var wedgeTimeout = 40 * time.Second
